@@ -37,6 +37,7 @@ def toB (loops : List LoopRec) : Instr → BInstr
   | .removeScope => .removeScope
   | .createClosure _ => .createClosure
   | .prepareCall _ n => .prepareCall n
+  | .tailGuard _ skip => .tailGuard skip
   | .pushLazy _ => .pushLazy
   | .loopStart l => .loopStart l
   | .label => .label
